@@ -132,7 +132,14 @@ TEXT = {'C11': {'technique': 'Lean 4 proof by mutual structural induction over t
                   'leaves inferX, whnfX and convX unchanged for every term and fuel, errors included), checking a closed one-definition group is checking its '
                   'parts under the extended contexts (C18_let_wrap), and a lambda likewise (C18_lam_wrap)**. Proved for all terms, stores and contexts: '
                   'whnf/unify/infer restore typing and definitions contexts, accepted or rejected. On the implementation every type_check / unify / normalize '
-                  'call of the unify, programs and pipeline suites is bracketed by context fingerprints.',
+                  'call of the unify, programs and pipeline suites is bracketed by context fingerprints. **Whole-context form proved for the independent '
+                  'checker (Lemmas/CtxWrap.lean): for any context built from parameter layers and definition-group layers of any length, in any interleaving, '
+                  'whose domains/definitions are themselves accepted, checking the open term under the pushed context is accepted with type B iff the closed '
+                  'program (λs / groups bound around it) is accepted with the closed type, and a genuine rejection on one side is the same rejection on the '
+                  'other — for some fuel on either side, verdicts being fuel-independent (C18_ctx_wrap, C18_ctx_reject, C18_ctx_verdict, C18_ctx_accept_iff, '
+                  'C18_params_wrap, C18_group_wrap, C18_mixed_wrap); conversion under parameters is conversion of the λ/Π-closed terms (C18_conv_lam, '
+                  "C18_conv_pi, C18_conv_params), gram's unify pushes none / recurses / pops on binders (C18_unify_binder); conversion and normalisation under "
+                  'a definition group agree with the closed group up to conversion (C18_conv_group, C18_whnf_group, C18_convX_group).**',
          'note': 'Trusted: Lean kernel, standard axioms, harness/driver.'},
  'C13': {'technique': "Lean 4 proof that sorting makes the visiting order invariant under any permutation of a hash container's elements, plus `decide` that "
                       'every hash-iteration site extracted from the sources is a sorted one; repeated launches of the real binary with byte comparison',
@@ -242,16 +249,23 @@ TEXT = {'C11': {'technique': 'Lean 4 proof by mutual structural induction over t
                   'siblings are disjoint and in source order — before re-association (after it: known finding KF-range-paren-chain). Type-error ranges are '
                   'observed, not modelled.',
          'note': 'Trusted: Lean kernel, standard axioms, harness/driver; Unicode whitespace supplied by Rust std.'},
- 'C16': {'technique': 'Lean model of the printer (Display, group, annotation) with theorems on which operand positions are parenthesised, `decide` that the '
-                      'atomic set equals the one regenerated from term.rs; model tied to term.rs by op `print` on every (parent position, child former) pair '
-                      'of parser-produced terms, G-prog programs (parsed, elaborated, types) and raw terms with cells; print / re-tokenize / re-parse oracle '
-                      'on the implementation',
-         'level': 'PARTIAL on the final step (printed tokens derive the same tree needs parser completeness). Proved: the bare/parenthesised partition equals '
-                  'the regenerated table; group parenthesises exactly the non-atomic formers; every operand position of every operator, application and '
-                  'definition goes through group, the bare positions are exactly the listed ones; printing depends on indices only through the '
-                  'dependent/non-dependent test; resolved cells are transparent; pure and store layers agree. Searched: every parser-produced term is printed, '
-                  're-read by the real front end and compared structurally (1038 of 1053 position/child pairs occur, the rest are impossible). Known finding '
-                  'KF-print-implicit (`{A} -> B`).',
+ 'C16': {'technique': "Lean 4 proof that the printer model's output tokenizes to a sentence of grammar.y (structural recursion over the term with a separation "
+                      'invariant, the C10 render law, and a derivation in the grammar regenerated from grammar.y), plus theorems on which operand positions '
+                      'are parenthesised and `decide` that the atomic set equals the one regenerated from term.rs; model tied to term.rs by op `print` on '
+                      'every (parent position, child former) pair of parser-produced terms, G-prog programs (parsed, elaborated, types) and raw terms with '
+                      'cells; print / re-tokenize / re-parse oracle on the implementation',
+         'level': 'PARTIAL only on the very last step (the parser reading the sentence back to the SAME tree needs parser completeness). **Proved end to end '
+                  'up to there: the text printed for any term tokenizes — no error, no panic, no two printed tokens fuse — to exactly the token kinds '
+                  '`printKinds` (C16_print_tokenizes: for every classifier that treats the keyword letters, space, digits and `)` `}` `;` as Rust std does, '
+                  'and every name table mapping the printed names to identifier lexemes), and that token sequence is a sentence of grammar.y '
+                  '(C16_printed_text_is_sentence, C16_print_derives) for every term without an implicit non-dependent function type (KF-print-implicit; proved '
+                  'not a sentence) and without a negative literal (never in a parsed or elaborated term; `f -1` and `f - 1` are proved to be the same '
+                  'tokens).** The printed text is the flattening of a lexeme list that mirrors the printer arm by arm (C16_print_items), digits round-trip '
+                  '(C16_decimal_digits). Proved: the bare/parenthesised partition equals the regenerated table; group parenthesises exactly the non-atomic '
+                  'formers; every operand position of every operator, application and definition goes through group, the bare positions are exactly the listed '
+                  'ones; printing depends on indices only through the dependent/non-dependent test; resolved cells are transparent; pure and store layers '
+                  'agree. Searched: every parser-produced term is printed, re-read by the real front end and compared structurally (1038 of 1053 '
+                  'position/child pairs occur, the rest are impossible). Known finding KF-print-implicit (`{A} -> B`).',
          'note': 'Trusted: Lean kernel, standard axioms, extractor, harness/driver.'},
  'C19': {'technique': 'Lean proofs of the evaluation-level facts behind the rewrites (if-true, applied identity, unused definition, named subexpression) and '
                       'that names never influence shifting, opening, stepping or evaluation; metamorphic search on the implementation: seven rewrite kinds '
@@ -266,7 +280,15 @@ TEXT = {'C11': {'technique': 'Lean 4 proof by mutual structural induction over t
                   'dropped; `x = v; x` evaluates to v; every semantic function of the model commutes with erasing names (consistent renaming cannot change a '
                   'result). Searched: rename, redundant parentheses, unused definition, name a subexpression, identity wrap, if-true wrap, reorder independent '
                   'function definitions, up to three per program, on every accepted G-prog program; a changed outcome is a violation with both programs as '
-                  'replay.',
+                  'replay. **Added: naming a subexpression — the named program `x : A = s; b` and the in-place program are convertible in every context '
+                  '(C19_name_conv, recursive form C19_name_conv_rec), the named one evaluates to the body with the value substituted (C19_name_eval), and '
+                  'whenever both print a value it is the same value (C19_name_result, C19_name_result_eval); the rewrite is strict — naming a subexpression of '
+                  'an unevaluated branch that divides by zero changes the outcome (C19_name_strict_witness, reproduced on the binary: CBV, not a defect). '
+                  'Reordering two independent non-recursive definitions: both orders are convertible, evaluate to a common term and print the same value '
+                  '(C19_reorder_conv, C19_reorder_eval, C19_reorder_result). Redundant parentheses at parser level: parentheses around the whole program, or '
+                  'around an operand the re-association pass keeps in place, change nothing but ranges and group flags through the three passes and resolution '
+                  '(C19_paren_whole, C19_paren_whole_pass, C19_paren_operand, C19_paren_operand_applies).** Typing invariance of naming and of reordering is '
+                  'not proved (searched).',
          'note': 'Trusted: Lean kernel, standard axioms, the rewrite implementations in harness/src/prog.rs (each is validated on the unchanged tree).'},
  'C07': {'technique': 'Lean model of the whole packrat parser incl. error recovery and the three re-association passes (zero differences on 1.7M ops); Lean '
                       'proofs: every token consumed, left association of + - and * / chains of any length, parenthesised chains opaque, passes act on disjoint '
@@ -292,4 +314,3 @@ TEXT = {'C11': {'technique': 'Lean 4 proof by mutual structural induction over t
                   "the implementation: the indices in parse()'s output for every generated program against an independent stack resolver, incl. keyword-prefix "
                   'and non-ASCII names and sibling scopes re-using names; unbound/shadowing perturbations must be rejected.',
          'note': 'Trusted: Lean kernel, standard axioms, the specification toDB, harness/driver.'}}
-
